@@ -79,6 +79,47 @@ theorem no_socket_leak {c : Cfg} (hc : fileCfg c) {s : State} (h : Reachable c s
     (((s.ent i).ipc = .dRead ∨ (s.ent i).ipc = .dProc) → (s.ent i).sock = true) :=
   ⟨socket_released c (fileCfg_closes hc).1 (fileCfg_closes hc).2 h hi, downlink_socket_open c h hi⟩
 
+/-- Gen side condition: the initialiser of every relay file arms the read deadline of the NAT socket
+(`SetReadDeadline(now+natTimeout)`) before the session goroutines start. -/
+theorem inits_arm_deadline : (cfgNatGeneric.initArms && cfgNatMmsg.initArms && cfgSessionGeneric.initArms && cfgSessionMmsg.initArms) = true := by
+  decide
+
+theorem fileCfg_initArms {c : Cfg} (h : fileCfg c) : c.initArms = true := by
+  have hs := inits_arm_deadline
+  simp only [Bool.and_eq_true] at hs
+  obtain ⟨cap, h | h | h | h⟩ := h <;> subst h <;> simp_all
+
+/-- Eviction does not depend on a successful send: in every interleaving — including uplinks all of whose packets fail to
+pack (`uFail`: dropped without re-arming) — a downlink blocked in its read has a read deadline, so either the NAT timer
+can still fire or the read fails at once.  A session can therefore not sit in the table for ever. -/
+theorem downlink_always_has_deadline {c : Cfg} (hc : fileCfg c) {s : State} (h : Reachable c s) {i : Nat} (hi : i < s.n)
+    (hp : (s.ent i).ipc = .dRead) :
+    (s.ent i).dl ≠ .unset ∧ ((step c s (.timer i)).isSome = true ∨ (step c s (.dTimeout i)).isSome = true) :=
+  ⟨downlink_has_deadline c (fileCfg_initArms hc) h hi hp, downlink_can_time_out c (fileCfg_initArms hc) h hi hp⟩
+
+/-! Why the initial deadline is needed: without it a session whose only packet cannot be packed is established, its
+uplink drops the packet without arming anything, and the downlink sleeps with NO deadline: neither the timer nor the read
+can ever end the session (it stays in the table until Stop). -/
+
+def cfgNoInitArm : Cfg := { cfgNatGeneric with initArms := false }
+
+def unpackableTrace : List Ev :=
+  [.arrive 0, .rLock, .rProc true, .rUnlock,
+   .init 0 true, .init 0 true, .init 0 true, .init 0 true, .init 0 true, .init 0 true, .init 0 true,
+   .uRecv 0 1, .uFail 0]
+
+theorem never_evicted_without_init_deadline :
+    ((run cfgNoInitArm State.init unpackableTrace).map fun s =>
+      ((s.ent 0).ipc == .dRead && (s.ent 0).dl == .unset && (s.ent 0).upc == .recv && (s.ent 0).q == 0 && s.table 0 == some 0 &&
+       !(step cfgNoInitArm s (.timer 0)).isSome && !(step cfgNoInitArm s (.dTimeout 0)).isSome && !(step cfgNoInitArm s (.uStep 0)).isSome &&
+       !(step cfgNoInitArm s (.uRecv 0 1)).isSome && !(step cfgNoInitArm s (.cleanup 0)).isSome)) = some true := by decide
+
+/-- with the initial deadline the same session (nothing ever sent) is evicted by the timer and fully torn down -/
+theorem eviction_of_unpackable_session :
+    ((run cfgNatGeneric State.init (unpackableTrace ++
+        [.timer 0, .dTimeout 0, .cleanup 0, .cleanup 0, .cleanup 0, .cleanup 0, .uStep 0, .uStep 0])).map fun s =>
+      ((s.table 0).isNone && (s.ent 0).finished && !(s.ent 0).sock && s.mu == .free && !s.panic)) = some true := by decide
+
 /-- Shutdown, safety parts: Stop passes `mwg.Wait` only after the receive loop returned (no new sessions afterwards),
 and once `wg.Wait` has returned every session goroutine (initialiser/downlink/clean-up and uplink) has returned.
 PARTIAL: that every fair run reaches this point is not proved (see header). -/
@@ -172,6 +213,11 @@ end SSV.C12
 #print axioms SSV.C12.sockets_closed_in_source
 #print axioms SSV.C12.fileCfg_closes
 #print axioms SSV.C12.no_socket_leak
+#print axioms SSV.C12.inits_arm_deadline
+#print axioms SSV.C12.fileCfg_initArms
+#print axioms SSV.C12.downlink_always_has_deadline
+#print axioms SSV.C12.never_evicted_without_init_deadline
+#print axioms SSV.C12.eviction_of_unpackable_session
 #print axioms SSV.C12.all_threads_exit_partial
 #print axioms SSV.C12.stop_timer_witness_without_recheck
 #print axioms SSV.C12.f9_schedule_with_recheck
